@@ -90,6 +90,10 @@ class CleanPass(FunctionPass):
             if block is pred:
                 continue
 
+            # A block starting with phis cannot be appended to another block:
+            if block.phis:
+                continue
+
             if isinstance(pred.last_instruction, ir.Jump):
                 return block
 
@@ -120,7 +124,7 @@ class CleanPass(FunctionPass):
             block1.add_instruction(instruction)
 
         # Replace incoming info:
-        for successor in block2.successors:
+        for successor in dict.fromkeys(block2.successors):
             successor.replace_incoming(block2, [block1])
 
         # Remove block from function:
